@@ -283,10 +283,16 @@ def run(ix, R):
     site = 'taurex/util/util.py::random_int_iter'
     with R.guard('2.rand', 'MPI', site, 'random source'):
         f = ix.func(site)
-        src = unparse(f.node)
-        R.check('2.rand', 'MPI', site, 'the sub-sample is random.sample(range(total), int(total*fraction)): no rank-dependent seed',
-                'samples = random.sample(range(total), n_points)' in src and 'n_points = int(total * fraction)' in src
-                and 'seed' not in src, key='random_int_iter', detail='random_int_iter differs', loc=f.loc())
+        from sa.helpers import need
+        ps = f.params()
+        b = need(R, '2.rand', 'MPI', site, 'the sub-sample is random.sample(range(total), int(total*fraction)) without replacement', f,
+                 ['V_n = int(V_t * V_f)', 'V_s = random.sample(range(V_t), V_n)', '''
+for V_x in V_s:
+    yield V_x
+'''], binding={'V_t': ps[0], 'V_f': ps[1]})
+        seeded = any(isinstance(n, ast.Call) and (dotted(n.func) or '').endswith('seed') for n in ast.walk(f.node))
+        R.check('2.noseed', 'MPI', site, 'no (rank-dependent) re-seeding of the random source', not seeded,
+                key='seed call', detail='random_int_iter re-seeds the generator', loc=f.loc())
     # ---- 3. collective discipline
     funcs = [f for f in ix.all_functions() if not f.module.relpath.startswith('taurex/plot')]
     nested = []
@@ -494,5 +500,7 @@ MUTANTS = [
     ('yield-weight', OP, "                yield weight\n", "                yield 1.0\n", '1.once'),
 ]
 EQUIVALENTS = [
+    ('rand-rename', 'taurex/util/util.py', r're:\bn_points\b', 'how_many'),
+    ('rank-rename', OP, r're:\bnum_procs\b', 'world'),
     ('welford-reorder', UM, 'self.mean = mean_old + weight / self.wcount * (value - mean_old)', 'self.mean = (value - mean_old) * weight / self.wcount + mean_old'),
 ]
